@@ -15,7 +15,7 @@ def run(rep, tier, prop=PROP, oracle=ORACLE, nontriv=lambda r: r["stats"]["busy_
     lib.proof_gate(rep, prop, THEOREMS, IMPORTS)
     n, cyc = (96, 300) if tier == "quick" else (5000, 500)
     n = rep.scale(n)
-    agg = runner.correspondence(rep, prop=prop, mod_name="harness.arbsim", driver_kind="arbiter", ncases=n, extra=(cyc, prop),
+    agg = runner.correspondence(rep, prop=prop, mod_name="harness.arbsim", legal_only=True, driver_kind="arbiter", ncases=n, extra=(cyc, prop),
                                 nontrivial=nontriv, oracle_props=oracle, mask_model=arbsim.mask_c08 if prop == "C08" else arbsim.mask_c09,
                                 sample_fmt=lambda r: {"arbiter": r["descr"], "cycles": [l[:120] for l in r["lines"][r["stats"]["n"] + 1:][:3]], "observed": [o[:160] for o in r["obs"][:3]]})
     rep.coverage.update(agg)
